@@ -29,6 +29,49 @@ class QCfg(Cfg):
     freeze_locals = True
 
 
+def walk_body(ps):
+    for p in ps:
+        yield p
+        for e in p.evs:
+            if e.kind == "loop":
+                yield from walk_body(e.extra["paths"])
+
+
+def revalidate_head(ctx, RV, gpaths, ci):
+    """The head read before the lock was dropped must be compared by identity with the current head, under the lock,
+    before popleft (shared by C17 and C08: without it an element pulled out by remove() is delivered as well)."""
+    npop = 0
+    for p in walk_body(gpaths):
+        pops = [i for i, e in enumerate(p.evs) if e.kind == "call" and re.fullmatch(r"self\._queue\.(popleft|pop)", e.extra.get("func", ""))]
+        for i in pops:
+            npop += 1
+            acq = max([j for j, e in enumerate(p.evs[:i]) if e.kind == "acquire"], default=None)
+            conds = [e for e in p.evs[(acq or 0) : i] if e.kind == "cond" and e.extra.get("truth")]
+            ident = [c for c in conds if re.fullmatch(r"self\._queue\[0\]\[0\] is \w+'|\w+' is self\._queue\[0\]\[0\]", c.text)]
+            ctx.check(
+                acq is not None and bool(ident),
+                RV,
+                f"{CLS}.get popleft",
+                "popleft() is not preceded, in the same critical section, by an identity comparison of the current head with the head read "
+                "before the lock was dropped: an element removed by remove() meanwhile is returned as well (duplicate), or another element is "
+                "handed out before its delay (its partner then arrives unpaired)",
+                f"{ci.module.relpath}:{p.evs[i].line}",
+                {"conds_in_section": [c.text for c in conds]},
+            )
+            ret = [e for e in p.evs[i:] if e.kind == "return"]
+            ctx.check(bool(ret) and ret[0].text.endswith("'"), RV, f"{CLS}.get returns the validated head", "get() does not return the element it validated", f"{ci.module.relpath}:{p.evs[i].line}")
+    if npop == 0:
+        raise AnalysisError("anchor vanished: no popleft in DelayedQueue.get")
+
+
+def get_paths(P):
+    ci = P.cls(CLS)
+    fi = ci.methods.get("get")
+    if fi is None:
+        raise AnalysisError("anchor vanished: DelayedQueue.get")
+    return Enumerator(QCfg(P)).run(fi), ci
+
+
 def run(ctx) -> None:
     P = ctx.P
     RG = ctx.rule("C17/guarded-by", "every access to the deque is made with the queue lock held (explicit acquire/release paths included)", floor=8)
@@ -195,36 +238,7 @@ def run(ctx) -> None:
     gpaths = all_paths.get("get")
     if gpaths is None:
         raise AnalysisError("anchor vanished: DelayedQueue.get")
-
-    def walk_body(ps):
-        for p in ps:
-            yield p
-            for e in p.evs:
-                if e.kind == "loop":
-                    yield from walk_body(e.extra["paths"])
-
-    npop = 0
-    for p in walk_body(gpaths):
-        pops = [i for i, e in enumerate(p.evs) if e.kind == "call" and re.fullmatch(r"self\._queue\.(popleft|pop)", e.extra.get("func", ""))]
-        for i in pops:
-            npop += 1
-            # last acquire before the pop
-            acq = max([j for j, e in enumerate(p.evs[:i]) if e.kind == "acquire"], default=None)
-            conds = [e for e in p.evs[(acq or 0) : i] if e.kind == "cond" and e.extra.get("truth")]
-            ident = [c for c in conds if re.fullmatch(r"self\._queue\[0\]\[0\] is \w+'|\w+' is self\._queue\[0\]\[0\]", c.text)]
-            ctx.check(
-                acq is not None and bool(ident),
-                RV,
-                f"{CLS}.get popleft",
-                "popleft() is not preceded, in the same critical section, by an identity comparison of the current head with the head read "
-                "before the lock was dropped: an element removed by remove() meanwhile is returned as well (duplicate), or another element is lost",
-                f"{ci.module.relpath}:{p.evs[i].line}",
-                {"conds_in_section": [c.text for c in conds]},
-            )
-            ret = [e for e in p.evs[i:] if e.kind == "return"]
-            ctx.check(bool(ret) and ret[0].text.endswith("'"), RV, f"{CLS}.get returns the validated head", "get() does not return the element it validated", f"{ci.module.relpath}:{p.evs[i].line}")
-    if npop == 0:
-        raise AnalysisError("anchor vanished: no popleft in DelayedQueue.get")
+    revalidate_head(ctx, RV, gpaths, ci)
     okc, msgc = True, ""
     nclosed = 0
     for p in walk_body(gpaths):
